@@ -174,6 +174,11 @@ func execLife(o *Out, id, line string) {
 					}
 					if e == io.EOF {
 						sawEOF = true
+						// bzip2.Reader looks for a following stream: a source that fails at (or before)
+						// the end of the input cannot have told it that the input was over
+						if typ == "bzip2" && strings.HasSuffix(srcKind, "failend") && cur == 0 {
+							o.Violate("C09", "bzip2.Reader reports io.EOF although the source answered its look for a following stream with an I/O error", "io-error-swallowed", line)
+						}
 					}
 				}
 			case "C":
@@ -488,6 +493,45 @@ func genLife(r *Rand, tier string, emit func(string)) {
 		}
 		pools[t] = p
 	}
+	// a three-block bzip2 stream abandoned after 0 / 1 / 2 completed blocks, then Reset onto a small one;
+	// dictionary-heavy brotli text read to the end (the window buffer is full), then Reset onto another
+	{
+		big := r.Bytes(250000)
+		var bb bytes.Buffer
+		zw, _ := dbzip2.NewWriter(&bb, &dbzip2.WriterConfig{Level: 1})
+		zw.Write(big)
+		zw.Close()
+		small := encodeFor("bzip2", []byte("a small second stream"), r)
+		for _, n := range []int{1, 50000, 150000, 230000} {
+			emit(fmt.Sprintf("lr t=bzip2 src=bytes fail=- streams=%s,%s plains=?,%s ops=R:%d|Z:1|A|C", hx(bb.Bytes()), hx(small), hx([]byte("a small second stream")), n))
+		}
+		text := func(n int) []byte {
+			words := strings.Fields("the of and to in is that for it was as with be by on not he this are or his from at which but have an had they you were their one all we can her has there been if more when will would who so no time some could them only other new two may then do first any my now such like our over man me even most made after also did many before must through back years where much your way well down should because each just those people how too little state good very make world still own see men work long get here between both life being under never day same another know while last might us great old year off come since against go came right used take three")
+			var b []byte
+			for len(b) < n {
+				w := words[r.Intn(len(words))]
+				if r.Intn(5) == 0 {
+					w = strings.ToUpper(w[:1]) + w[1:]
+				}
+				b = append(b, w...)
+				b = append(b, []string{" ", ", ", ". ", "\n\t"}[r.Intn(4)]...)
+			}
+			return b
+		}
+		enc := func(d []byte, q int) []byte {
+			var o bytes.Buffer
+			w := cbrotli.NewWriter(&o, q)
+			w.Write(d)
+			w.Close()
+			return o.Bytes()
+		}
+		a, b2 := text(100000), text(20000)
+		for _, q := range []int{11, 9, 5} {
+			for _, n := range []int{100, 5000, 1 << 20} {
+				emit(fmt.Sprintf("lr t=brotli src=bytes fail=- streams=%s,%s plains=%s,%s ops=R:%d|Z:1|A|C", hx(enc(a, q)), hx(enc(b2, q)), hx(a), hx(b2), n))
+			}
+		}
+	}
 	ropAlpha := []string{"R:0", "R:1", "R:7", "R:100000", "C", "A"}
 	depth := 3
 	if thorough {
@@ -515,8 +559,13 @@ func genLife(r *Rand, tier string, emit func(string)) {
 		if t != "xflate" {
 			s := unhx(p.streams[0])
 			for k := 0; k <= len(s); k++ {
-				if len(s) > 120 && k%5 != 0 {
+				if len(s) > 120 && k%5 != 0 && k < len(s)-1 {
 					continue
+				}
+				if k == len(s) { // a source that delivers everything and then fails instead of reporting io.EOF
+					for _, fs := range []string{"failend", "bytefailend"} {
+						emit(fmt.Sprintf("lr t=%s src=%s fail=- streams=%s plains=%s ops=R:100000|R:1|R:0|C|C", t, fs, p.streams[0], p.plains[0]))
+					}
 				}
 				src := []string{"adv", "byte", "readonly", "bufio16"}[r.Intn(4)]
 				emit(fmt.Sprintf("lr t=%s src=%s fail=%d streams=%s plains=%s ops=R:50|R:100000|R:100000|R:1|R:0|C|R:1|C", t, src, k, p.streams[0], p.plains[0]))
